@@ -38,6 +38,8 @@ std::vector<Extra> extras()
     E.push_back({"loops", "offsets -1", [](dj::track_snapshot& s) { s.loops.assign(8, std::nullopt); s.loops[7] = dj::loop{"neg", -1.0, -1.0, {}}; }, false, true});
     E.push_back({"beatgrid", "single marker", [](dj::track_snapshot& s) { s.beatgrid = {{0, 100.0}}; }, false, true});
     E.push_back({"beatgrid", "64 markers", [](dj::track_snapshot& s) { s.beatgrid.clear(); for (int i = 0; i < 64; ++i) s.beatgrid.push_back({i * 4 - 4, 10.5 + 1000.0 * i}); }, true, true});
+    E.push_back({"beatgrid", "32768 markers (the 1.x decoder's limit)", [](dj::track_snapshot& s) { s.beatgrid.clear(); for (int i = 0; i < 32768; ++i) s.beatgrid.push_back({i, 10.5 + 100.0 * i}); }, true, true});
+    E.push_back({"beatgrid", "32769 markers", [](dj::track_snapshot& s) { s.beatgrid.clear(); for (int i = 0; i < 32769; ++i) s.beatgrid.push_back({i, 10.5 + 100.0 * i}); }, false, true});
     E.push_back({"beatgrid", "unsorted", [](dj::track_snapshot& s) { s.beatgrid = {{4, 100.0}, {0, 50.0}}; }, false, true});
     E.push_back({"waveform", "one entry", [](dj::track_snapshot& s) { s.waveform.assign(1, dj::waveform_entry{{9, 9}, {8, 8}, {7, 7}}); }, false, true});
     E.push_back({"waveform", "recommended size + 1", [](dj::track_snapshot& s) { s.waveform.push_back(dj::waveform_entry{}); }, false, true});
@@ -128,6 +130,7 @@ Built build(int base_kind, const std::vector<int>& choice, bool v2, int n)
         else
         {
             auto& e = *S[i].ex[(size_t)c - 1 - f.values.size()];
+            if (e.desc.rfind("3276", 0) == 0 && base_kind != 2) continue;  // the two 0.8 MB grids are written over one base only (cost)
             e.put(b.snap);
             b.must_succeed = b.must_succeed && e.must_succeed;
             b.desc += f.name + "=" + e.desc + "; ";
